@@ -269,6 +269,42 @@ where
         }
         Ok(())
     });
+    // with_precision: exact when the value fits, else the rounding contract of the mode at the new precision, and
+    // never more than the target precision (+1) digits. Significands next to a power of the base (B^j + tiny,
+    // B^j - tiny) are the ones digit-count estimates get wrong
+    {
+        let j = 2 + r.usize(45);
+        let bj: BigInt = Pow::pow(&BigInt::from(base), j);
+        let tiny = BigInt::from(1 + r.below(3));
+        let s2: BigInt = match r.below(4) {
+            0 => &bj + &tiny,
+            1 => &bj - &tiny,
+            2 => &bj * BigInt::from(1 + r.below(base as u64 - 1)) + &tiny,
+            _ => s.clone(),
+        } * if r.bool() { -1i32 } else { 1i32 };
+        let e2 = r.range(-60, 20);
+        let x2 = q_of_parts(&s2, e2, base);
+        let f2 = FBig::<Rm, B>::from_parts(ibig_of_int(&s2), e2 as isize);
+        let sd = qref::digits(&s2, base);
+        let k = match r.below(4) {
+            0 => sd.saturating_sub(1).max(1),
+            1 => sd,
+            2 => 1 + r.usize(sd),
+            _ => sd + 1 + r.usize(5),
+        };
+        let d = || format!("with_precision mode={} base={} x={}*{}^{} k={}", Rm::M.name(), base, s2, base, e2, k);
+        m.check("with_precision", &format!("{}/b{}", Rm::M.name(), base), Some(gen::hash_limbs((e2 as u64) << 16 ^ (k as u64) << 40 ^ (base as u64) << 8 ^ 0x77, &limbs_of_nat(s2.magnitude()))), &d, || {
+            let res = catch(|| f2.clone().with_precision(k)).or_else(|p| fail("unexpected_panic", p))?;
+            let flag = Flag::of(&res);
+            let v = res.value();
+            ensure!(v.precision() == k, "precision", "with_precision({}) produced precision {}", k, v.precision());
+            let vd = digits(&int_of(v.repr().significand()), base);
+            if k >= sd {
+                ensure!(flag == Flag::Exact && q_of_repr(v.repr()) == x2, "value", "with_precision({}) of a {}-digit value is not exact ({}*{}^{}, {:?})", k, sd, v.repr().significand(), base, v.repr().exponent(), flag);
+            }
+            check_contract(&x2, &q_of_repr(v.repr()), flag, vd, base, k, Rm::M).or_else(|(kind, dd)| fail(kind, format!("with_precision({}): {} (result {}*{}^{}, flag {:?})", k, dd, v.repr().significand(), base, v.repr().exponent(), flag)))
+        });
+    }
     // scientific forms: without a precision the text denotes the value exactly; with a precision N the text
     // denotes the value rounded, under the mode of the type, to the unit of the last digit it shows, and it
     // shows at least N fractional digits
